@@ -49,7 +49,7 @@ impl Writer<SimWorld> for RawRec {
             let n = self.events.borrow().len();
             if !is_log && n % k == 0 && self.logged < 8 {
                 self.logged += 1;
-                tracing::info!("consumer-log {n}");
+                tracing::warn!("consumer-log {n}");
             }
         }
     }
@@ -71,9 +71,10 @@ pub fn run_world_t(plan: &Rc<Plan>) -> Result<History, String> {
     let polls = Rc::new(RefCell::new(Vec::new()));
     let wr = RawRec { core: Rc::clone(&core), rec: Recorder::new(&core), events: Rc::clone(&events), polls: Rc::clone(&polls), log_every: (plan.seed % 3 == 0).then(|| 2 + (plan.seed / 3 % 5) as usize), logged: 0 };
     let opts = cli::Opts { re_filter: None, tags_filter: None, parser: cli::Empty, runner: runa::build_cli(plan), writer: cli::Empty, custom: cli::Empty };
+    let warn = world::warn_filter_of(plan);
     let cuc = Cucumber::<SimWorld, _, (), _, _, cli::Empty>::custom(SimParser(stream), runa::build_runner(plan), wr)
         .configure_and_init_tracing(format::DefaultFields::new(), Format::default().without_time().with_ansi(false), |layer| {
-            tracing_subscriber::registry().with(LevelFilter::INFO.and_then(layer))
+            tracing_subscriber::registry().with(if warn { LevelFilter::WARN } else { LevelFilter::INFO }.and_then(layer))
         })
         .with_cli(opts);
     let ended = Rc::new(std::cell::Cell::new(false));
@@ -86,7 +87,7 @@ pub fn run_world_t(plan: &Rc<Plan>) -> Result<History, String> {
         ended2.set(true);
     };
     let root: std::pin::Pin<Box<dyn std::future::Future<Output = ()>>> = if outer_span {
-        Box::pin(tracing::Instrument::instrument(fut, tracing::info_span!("suite", run = 1)))
+        Box::pin(tracing::Instrument::instrument(fut, tracing::error_span!("suite", run = 1)))
     } else {
         Box::pin(fut)
     };
